@@ -183,10 +183,12 @@ impl IndicatorInstance for KaufmanInstance {
 		let direction = self.change.next(src).abs();
 		let volatility = self.volatility.next(src);
 
-		let er = if volatility == 0. {
-			0.
+		// `volatility` is a running sum: after much larger past values it carries a rounding residue,
+		// which can make it negative or smaller than `direction` although the exact ratio is in [0; 1]
+		let er = if volatility > 0. {
+			(direction / volatility).min(1.)
 		} else {
-			direction / volatility
+			0.
 		};
 		let mut smooth = er.mul_add(self.fastest - self.slowest, self.slowest);
 
